@@ -216,7 +216,7 @@ fn main() {
         let mut v = img.clone();
         let mut hit = false;
         for t in v["trees"].as_array_mut().unwrap() {
-            if let Some(p) = t["pages"].as_array_mut().unwrap().iter_mut().find(|p| p["t"] == "b" && p["keys"].as_array().unwrap().len() == 1) {
+            if let Some(p) = t["pages"].as_array_mut().unwrap().iter_mut().find(|p| p["t"] == "b") {
                 p["keys"][0] = json!([]);
                 hit = true;
                 break;
